@@ -29,7 +29,9 @@ RULE = ("kappa / overhead / probabilities of every documented family at special 
         "local conjugations handed over as matrix-only Gate objects other than UnitaryGate (user-defined subclasses with a fixed name), several "
         "decomposed in one process; dyadic coefficient vectors times 2^-10 .. 2^-60 (invariants to relative accuracy); graded neighbourhoods "
         "(1e-3 .. 1e-8 rad, both sides) of every multiple of pi/2 in [-8pi, 8pi] for every parametrised family (KAK-path families on a thinner "
-        "grid); distinct by payload")
+        "grid); programs of in-place edits of the coefficient container (the list basis.coeffs returns, the caller's own list / array, an "
+        "array scaled in place) before / between reads of kappa, overhead, probabilities, mixed with reassignments: overhead = kappa^2 and "
+        "kappa, probabilities belong to one coefficient vector in every reachable state (oracle only); distinct by payload")
 ASSUMPTIONS = ["Qiskit maps rzx / xx+-yy to Weyl coordinates (theta/2,0,0) / (theta/4,theta/4,0) (checked numerically per case through the real basis)",
                "numpy float arithmetic on dyadic coefficient vectors is exact (kappa, overhead compared exactly; probabilities to 1e-12)"]
 TOL = 1e-9
@@ -210,8 +212,71 @@ def _landmark_family():
                                      **({} if with_model else {"oracle_only": True})))
 
 
+def _inplace_family():
+    """Bases whose coefficient CONTAINER is edited in place without a reassignment -- an element of the list `basis.coeffs` returns
+    ("edit"), an element of the caller's own list / array that was assigned ("cedit"), an assigned float array scaled in place ("scale")
+    -- before / after / between reads of kappa, overhead and probabilities ("touch": read and discard; "check": read all three and judge),
+    mixed with proper reassignments.  Whatever the object does about such an edit, in every state it can reach the overhead is kappa
+    squared and kappa and the probabilities are the 1-norm and the normalised absolute values of ONE coefficient vector (see `oracle`).
+    Oracle only: the model has no notion of a container edited behind the setter."""
+    gates = (("rxx", [0.7]), ("crz", [-2.2]), ("cx", []), ("rzz", [5.0]), ("cz", []), ("cs", []), ("move", []))
+    new6 = [0.5, -1.5, 0.25, 0.75, -1.0, 2.0]
+    progs = (
+        [["edit", 1, 2.5], ["check"]],                                            # fresh, edited before anything was read
+        [["check"], ["edit", 0, -3.0], ["check"], ["edit", -1, 0.0], ["check"]],   # read, edited, read again
+        [["assign", new6], ["edit", 0, -4.0], ["check"]],                          # reassigned, edited before the next read
+        [["touch", ["kappa"]], ["edit", 2, 7.0], ["touch", ["probs"]], ["check"]],
+        [["touch", ["probs"]], ["assign", new6], ["cedit", 3, -6.0], ["check"], ["assign", [3.0, 0.0, -1.0, 0.0, 0.0, 1.0]], ["check"]],
+        [["assign", new6], ["touch", ["overhead", "kappa"]], ["scale", 3.0], ["check"], ["edit", 5, 0.125], ["check"]],
+        [["edit", 0, 0.0], ["touch", ["overhead"]], ["edit", 1, -9.0], ["check"]],
+    )
+    for i, (name, params) in enumerate(gates):
+        for j in (i, i + 3):
+            ops = [list(o) for o in progs[j % len(progs)]]
+            if name == "move":   # 8 maps
+                ops = [[o[0], o[1] + [0.5, -0.25]] if o[0] == "assign" else o for o in ops]
+            yield ("inplace", {"gate": name, "params": params, "init": None, "container": "ndarray" if any(o[0] == "scale" for o in ops) else "list",
+                               "ops": ops, "order": ["kappa", "overhead", "probs"] if (i + j) % 2 else ["probs", "overhead", "kappa"],
+                               "always_oracle": True, "oracle_only": True})
+    # hand-made bases: the constructor's own container edited by the caller afterwards, lists and float arrays
+    for init, cont, ops in (([0.5, -0.25, 0.125], "list", [["cedit", 0, 4.0], ["check"]]),
+                            ([0.5, -0.25, 0.125], "ndarray", [["scale", 0.25], ["check"], ["cedit", 2, -1.0], ["check"]]),
+                            ([3.0, -1.0, 0.5, 0.5], "ndarray", [["check"], ["edit", 3, 2.0], ["check"]]),
+                            ([0.25, 0.75], "list", [["touch", ["kappa"]], ["cedit", 1, -0.0625], ["check"], ["assign", [1.0, 1.0]], ["edit", 0, 8.0],
+                                                    ["check"]]),
+                            ([1.0, 2.0, -3.0, 4.0, 0.5], "list", [["assign", [0.5, 0.5, 0.5, 0.5, 0.5]], ["cedit", 4, 16.0], ["touch", ["overhead"]],
+                                                                  ["edit", 0, -2.0], ["check"]])):
+        yield ("inplace", {"gate": None, "params": [], "init": init, "container": cont, "ops": ops, "order": ["overhead", "probs", "kappa"],
+                           "always_oracle": True, "oracle_only": True})
+
+
+def _rand_inplace(rng):
+    name = rng.choice([None, None, "cx", "rzz", "crx", "cs", "ecr"])
+    n = rng.randint(2, 6) if name is None else 6
+    vec = lambda: [float(x) for x in _dyadic_vec(rng, n)]
+    cont = rng.choice(["list", "ndarray"])
+    ops = []
+    for _ in range(rng.randint(2, 6)):
+        r = rng.random()
+        if r < 0.4:
+            ops.append([rng.choice(["edit", "cedit"]), rng.randrange(n), float(Fraction(rng.randint(-64, 64), rng.choice([1, 2, 4, 8])))])
+        elif r < 0.55:
+            ops.append(["assign", vec()])
+        elif r < 0.65 and cont == "ndarray":
+            ops.append(["scale", rng.choice([0.5, 3.0, -2.0])])
+        elif r < 0.85:
+            ops.append(["touch", rng.sample(["kappa", "overhead", "probs"], rng.randint(1, 2))])
+        else:
+            ops.append(["check"])
+    order = ["kappa", "overhead", "probs"]
+    rng.shuffle(order)
+    return ("inplace", {"gate": name, "params": [gen.rand_angle(rng)] if name in c02.FAMS else [], "init": None if name else vec(),
+                        "container": cont, "ops": ops + [["check"]], "order": order, "oracle_only": True, "always_oracle": True})
+
+
 def cases(rng, tier):
     reps = 4 if tier == "quick" else 40
+    yield from _inplace_family()
     yield from _share_family()
     yield from _hair_family()
     yield from _carrier_family()
@@ -283,6 +348,9 @@ def cases(rng, tier):
         name = rng.choice(["rzx", "xx_plus_yy", "xx_minus_yy", "open:crz", "open:crx", "open:cry", "open:cp"])
         th = rng.randint(-4, 4) * (math.pi if name == "rzx" else 2 * math.pi) + rng.choice([-1, 1]) * 10 ** rng.uniform(-8.5, -7.3)
         yield ("kappa", {"gate": name, "params": [th, rng.uniform(-3, 3)] if name.startswith("xx_") else [th]})
+    # random programs of in-place container edits / reads / reassignments (drawn last: the streams above are unchanged)
+    for _ in range(reps * 4):
+        yield _rand_inplace(rng)
 
 
 def _payload_gate(kind, payload):
@@ -442,6 +510,55 @@ def run_real(kind, payload):
                     return {"ok": out[:-1] + [{"ok": dict(_state(b), kappa=float("nan"))}],
                             "note": f"step {step}: after coefficients were assigned to {how}, {who} has {bad}"}
         return {"ok": out}
+    if kind == "inplace":
+        def cbox(vals):
+            return np.array(vals, dtype=float) if payload.get("container") == "ndarray" else [float(v) for v in vals]
+        get = {"kappa": lambda o: float(o.kappa), "overhead": lambda o: float(o.overhead), "probs": lambda o: [float(p) for p in o.probabilities]}
+        if payload["gate"] is None:
+            given = cbox(payload["init"])
+            b = QPDBasis([([XGate()],) for _ in payload["init"]], given)
+        else:
+            b = _basis(payload)
+            given = b.coeffs
+        assigned = [float(x) for x in given]   # the vector the basis was normalised with last (constructor / setter)
+        out, log = [], []
+        for op in payload["ops"]:
+            if op[0] == "touch":
+                for a in op[1]:
+                    get[a](b)
+                log.append("read " + "/".join(op[1]))
+            elif op[0] == "edit":
+                try:
+                    b.coeffs[op[1]] = op[2]
+                    log.append(f"basis.coeffs[{op[1]}] = {op[2]}")
+                except TypeError:   # an immutable container (some gate bases hold a tuple): no such edit
+                    pass
+            elif op[0] == "cedit":
+                try:
+                    given[op[1]] = op[2]
+                    log.append(f"v[{op[1]}] = {op[2]} on the container v handed over last")
+                except TypeError:
+                    pass
+            elif op[0] == "scale":
+                if isinstance(given, np.ndarray):
+                    given *= op[1]
+                elif isinstance(given, list):
+                    for i in range(len(given)):
+                        given[i] *= op[1]
+                else:
+                    continue
+                log.append(f"v *= {op[1]} in place on the container v handed over last")
+            elif op[0] == "assign":
+                given = cbox(op[1])
+                b.coeffs = given
+                assigned = [float(x) for x in given]
+                log.append(f"basis.coeffs = {payload.get('container', 'list')}({[float(x) for x in op[1]]})")
+            elif op[0] == "check":
+                st = {a: get[a](b) for a in payload.get("order", ("kappa", "overhead", "probs"))}
+                st.update(coeffs=[float(c) for c in b.coeffs], assigned=list(assigned), log=list(log))
+                out.append(st)
+                log.append("read " + "/".join(payload.get("order", ("kappa", "overhead", "probs"))))
+        return {"ok": out}
     if kind == "alias":
         b1 = QPDBasis.from_instruction(c02._gate({"gate": payload["g1"], "params": payload["p1"]}))
         _ = b1.overhead
@@ -600,6 +717,30 @@ def oracle(kind, payload):
                 return f"step {i}: overhead {s['overhead']!r} is not kappa^2 = {float(k * k)!r} for the coefficients {[float(c) for c in cs]}"
             if not abs(sum(s["probs"]) - 1) <= 1e-9:
                 return f"step {i}: probabilities {s['probs']} add up to {sum(s['probs'])!r} for the coefficients {[float(c) for c in cs]}"
+        return None
+    if kind == "inplace":
+        start = (f"QPDBasis.from_instruction({payload['gate']}{payload['params']})" if payload["gate"] else
+                 f"QPDBasis(maps, v) with v = {payload.get('container', 'list')}({payload['init']})")
+        for s in real["ok"]:
+            where = f"{start}; " + "; ".join(s["log"]) + f"; then read {'/'.join(payload.get('order', ()))}: "
+            k, ov, pr = s["kappa"], s["overhead"], s["probs"]
+            # for EVERY basis the overhead is kappa squared
+            if not abs(ov - k * k) <= 1e-9 * k * k:
+                return where + f"overhead {ov!r} is not kappa^2 = {k * k!r} (kappa {k!r})"
+            if len(pr) != len(s["coeffs"]):
+                return where + f"{len(pr)} probabilities for {len(s['coeffs'])} coefficients"
+            # the probabilities are NORMALISED absolute coefficients
+            if any(not p >= 0 for p in pr) or not abs(sum(pr) - 1) <= 1e-9:
+                return where + f"probabilities {pr} add up to {sum(pr)!r}"
+            # kappa and the probabilities are the 1-norm and the normalised absolute values of one and the same coefficient vector: the one
+            # the basis was normalised with last, or the one it holds now (either reading of an edit behind the setter is accepted)
+            for v in (s["assigned"], s["coeffs"]):
+                n1 = sum(abs(x) for x in v)
+                if n1 > 0 and abs(k - n1) <= 1e-12 * n1 and all(abs(p - abs(x) / n1) <= 1e-12 for p, x in zip(pr, v)):
+                    break
+            else:
+                return where + (f"kappa {k!r} and probabilities {pr} are not the 1-norm and the normalised absolute values of one coefficient "
+                                f"vector, neither of the vector assigned last {s['assigned']} nor of the coefficients held now {s['coeffs']}")
         return None
     s = real["ok"]
     g = _payload_gate(kind, payload)
